@@ -254,7 +254,7 @@ func runHarness(ld *Loaded, cfg Config, pkg *ssa.Package, fn *ssa.Function, work
 	active := 0
 	stop := false
 	reaches := map[string]bool{}
-	seenViol := map[string]bool{}
+	seenViol := map[string]int{}
 	uniq := func(list *[]string, s string) {
 		for _, x := range *list {
 			if x == s {
@@ -345,8 +345,23 @@ func runHarness(ld *Loaded, cfg Config, pkg *ssa.Package, fn *ssa.Function, work
 				}
 				for _, v := range res.Violations {
 					key := v.ID + "|" + v.Known + "|" + v.Kind + "|" + v.Site
-					if !seenViol[key] {
-						seenViol[key] = true
+					// up to three counterexamples (from different paths) per obligation:
+					// alternates are replayed when the first does not reproduce natively
+					// with different inputs
+					mk := key + "#"
+					names := make([]string, 0, len(v.Model))
+					for n := range v.Model {
+						if n != "clock.T0" {
+							names = append(names, n)
+						}
+					}
+					sort.Strings(names)
+					for _, n := range names {
+						mk += fmt.Sprintf("%s=%d,", n, v.Model[n])
+					}
+					if seenViol[key] < 3 && seenViol[mk] == 0 {
+						seenViol[key]++
+						seenViol[mk]++
 						hr.Violations = append(hr.Violations, v)
 					}
 				}
